@@ -77,7 +77,18 @@ pub fn gen_prot_variant(ctx: &mut Ctx, origin: Origin) -> MProt {
         _ => gen::gen_header(&mut ctx.rng, &o, 1),
     };
     if origin == Origin::Built {
-        // a built header must be encodable: extras never collide (the generator guarantees it)
+        // a built header must be encodable: extras never collide (the generator guarantees it).
+        // Hand-built headers may hold a text content type that a decoder would refuse (white space at
+        // either end, no slash): it is part of the header all the same and goes into the structure
+        if ctx.rng.chance(1, 12) {
+            let base = *ctx.rng.pick(&["a/b", "text/plain", "x"]);
+            let ws = *ctx.rng.pick(&[" ", "\n", "\u{85}", "\u{2003}", "\u{a0}", "\t"]);
+            header.ct = Some(crate::model::MLabel::Text(match ctx.rng.below(3) {
+                0 => format!("{}{}", ws, base),
+                1 => format!("{}{}", base, ws),
+                _ => format!("{}{}{}", ws, base, ws),
+            }));
+        }
         return MProt { bytes: None, header };
     }
     let bytes = if header.is_empty() {
